@@ -1,6 +1,6 @@
 (* C42 — property theorems only.  Each is closed by `exact <lemma>` and followed by Print Assumptions. *)
 From Coq Require Import List NArith Bool Arith.
-From Verif.C42 Require Import Model Spec Proofs ProofsApply ProofsFinal ProofsIds ProofsSpec ProofsPin ProofsMaglev ProofsSched ProofsOracle ModelMg ProofsMg Witness.
+From Verif.C42 Require Import Model Spec Proofs ProofsApply ProofsFinal ProofsIds ProofsSpec ProofsPin ProofsMaglev ProofsSched ProofsOracle ModelMg ProofsMg ProofsProj ProofsThree Witness.
 Import ListNotations.
 Open Scope N_scope.
 
@@ -295,3 +295,27 @@ Theorem c42_model_meets_replay : forall cfg sy d st v fF fB tr sy' d' err,
   replay_ok d tr = true /\ dp_good d'.
 Proof. exact model_meets_replay. Qed.
 Print Assumptions c42_model_meets_replay.
+
+(* THE THREE-MAP MODEL PROJECTS ONTO THE TWO-MAP MODEL: dropping the LUT writes from a schedule accepted by exec_apply3
+   (either phase order) gives a schedule accepted by exec_apply, with the same Syncer state, error flag and NAT maps.
+   So everything proved about exec_apply / run_history holds for the NAT maps of exec_apply3 runs. *)
+Theorem c42_three_map_model_projects : forall cfg b lut lutf sy d st v fF fB tr sy' d' err,
+  exec_apply3 cfg b lut lutf sy d st v fF fB tr = Some (sy', d', err) ->
+  exec_apply cfg sy (fst d) st v fF fB (core_writes tr) = Some (sy', fst d', err).
+Proof. exact exec_apply3_proj. Qed.
+Print Assumptions c42_three_map_model_projects.
+
+(* in particular c42_final_exact for the three-map model (both phase orders) *)
+Theorem c42_final_exact_three_maps : forall cfg b lut lutf ops d0 states sy d st v fF fB tr sy' d',
+  c_reset cfg = true -> consistent (fst (fst d0)) (snd (fst d0)) ->
+  run_history3 cfg b lut lutf new_syncer d0 ops = Some (states, sy, d) ->
+  exec_apply3 cfg b lut lutf sy d st v fF fB tr = Some (sy', d', false) ->
+  spec_wf (c_npips cfg) st ->
+  (forall s eps k kd, In (s, eps) st -> In (k, kd) (spec_frontends (c_npips cfg) s eps) ->
+     exists fv, lookup fkey_eqb (fst (fst d')) k = Some fv /\ frontend_exact (snd (fst d')) s eps kd fv)
+  /\ (forall k, lookup fkey_eqb (fst (fst d')) k <> None ->
+        exists s eps kd, In (s, eps) st /\ In (k, kd) (spec_frontends (c_npips cfg) s eps))
+  /\ (forall id i a, lookup pair_eqb (snd (fst d')) (id, i) = Some a ->
+        exists k fv, lookup fkey_eqb (fst (fst d')) k = Some fv /\ fv_id fv = id /\ i < fv_count fv).
+Proof. exact final_exact_three. Qed.
+Print Assumptions c42_final_exact_three_maps.
